@@ -297,26 +297,36 @@ func discharge(obls []*Obligation, scratch string, timeout int, thorough bool) *
 	}
 	wg.Wait()
 	// inconclusive results are retried alone (no competition for cores) with a longer limit, so that
-	// machine load never turns a provable obligation into an alarm
-	for _, j := range jobs {
-		if len(j.obs) == 0 || j.probe {
-			continue
-		}
-		s0 := j.obs[0].Status
-		if s0 == "unsat" || s0 == "sat" || s0 == "disagree" {
-			continue
-		}
-		r := race(j.file, solvers, timeout*4)
-		st.secs += r.secs
-		if r.status == "unsat" || r.status == "sat" {
-			model := ""
-			if r.status == "sat" {
-				model = getModel(j.file, r.solver)
+	// machine load never turns a provable obligation into an alarm; a handful that is still undecided gets a
+	// last, much longer attempt (a genuine failure usually leaves many undecided: then the long attempt is skipped)
+	for stage, mult := range []int{4, 15} {
+		var pending []*job
+		for _, j := range jobs {
+			if len(j.obs) == 0 || j.probe {
+				continue
 			}
-			for _, o := range j.obs {
-				o.Status, o.Solver, o.Secs, o.Model = r.status, r.solver+"(retry)", r.secs, model
-				if r.status == "unsat" {
-					st.bySolver[r.solver]++
+			s0 := j.obs[0].Status
+			if s0 == "unsat" || s0 == "sat" || s0 == "disagree" {
+				continue
+			}
+			pending = append(pending, j)
+		}
+		if stage == 1 && len(pending) > 6 {
+			break
+		}
+		for _, j := range pending {
+			r := race(j.file, solvers, timeout*mult)
+			st.secs += r.secs
+			if r.status == "unsat" || r.status == "sat" {
+				model := ""
+				if r.status == "sat" {
+					model = getModel(j.file, r.solver)
+				}
+				for _, o := range j.obs {
+					o.Status, o.Solver, o.Secs, o.Model = r.status, r.solver+"(retry)", r.secs, model
+					if r.status == "unsat" {
+						st.bySolver[r.solver]++
+					}
 				}
 			}
 		}
